@@ -111,6 +111,10 @@ class ServeManifest(RequestHandlerBase):
         except ValueError as err:
             logging.warning('Unable to create manifest: %s', err)
             return flask.make_response(html.escape(str(err)), 404)
+        if not dash.video.representations:
+            # the manifest templates need the video AdaptationSet
+            return flask.make_response(
+                'This stream does not have any usable video', 404)
         context = cast(ManifestTemplateContext, self.create_context(
             title=current_stream.title, mpd=dash, options=options,
             mode=mode, stream=current_stream))
@@ -314,6 +318,10 @@ class ServePatch(RequestHandlerBase):
         except ValueError as err:
             logging.warning('Unable to create manifest: %s', err)
             return flask.make_response(html.escape(str(err)), 404)
+        if not dash.video.representations:
+            # the manifest templates need the video AdaptationSet
+            return flask.make_response(
+                'This stream does not have any usable video', 404)
         context = cast(PatchTemplateContext, self.create_context(
             title=current_stream.title, mpd=dash, options=options,
             stream=current_stream,
